@@ -85,6 +85,13 @@ func requireHeightConds(fn *ir.Func) []rhCond {
 				cond = ast.Unparen(o)
 			}
 		}
+		// … or a field of a record that is given its value once, where the record is built (`req.validated`, set by
+		// `syncRequest{…, validated: base.Height >= …RequireHeight}` and never assigned)
+		if sel, isSel := cond.(*ast.SelectorExpr); isSel {
+			if init := singleFieldInit(fn, fn.FieldOf(sel)); init != nil {
+				cond = ast.Unparen(init)
+			}
+		}
 		be, ok := cond.(*ast.BinaryExpr)
 		if !ok {
 			continue
@@ -116,6 +123,67 @@ func requireHeightConds(fn *ir.Func) []rhCond {
 		}
 	}
 	return out
+}
+
+// singleFieldInit: the one expression a struct field is ever given in its package — the value of its key in the only
+// composite literal that names it — provided no statement assigns the field.
+func singleFieldInit(fn *ir.Func, fld *types.Var) ast.Expr {
+	if fld == nil || !fld.IsField() || fld.Pkg() == nil {
+		return nil
+	}
+	var inits []ast.Expr
+	assigned := false
+	for _, f := range fn.P.Funcs {
+		if f.Pkg.Types != fld.Pkg() || f.Lit != nil || f.View {
+			continue
+		}
+		for _, w := range f.WritesIn(f.Body, true) {
+			if lhsField(f, w.LHS) == fld {
+				assigned = true
+			}
+		}
+		ast.Inspect(f.Body, func(y ast.Node) bool {
+			cl, ok := y.(*ast.CompositeLit)
+			if !ok {
+				return true
+			}
+			t := f.TypeOf(cl)
+			if t == nil {
+				return true
+			}
+			if pt, isPtr := t.Underlying().(*types.Pointer); isPtr {
+				t = pt.Elem()
+			}
+			st, isStruct := t.Underlying().(*types.Struct)
+			if !isStruct {
+				return true
+			}
+			owns := false
+			for i := 0; i < st.NumFields(); i++ {
+				if st.Field(i) == fld {
+					owns = true
+				}
+			}
+			if !owns {
+				return true
+			}
+			for _, el := range cl.Elts {
+				kv, isKV := el.(*ast.KeyValueExpr)
+				if !isKV {
+					assigned = true // a positional literal: not followed
+					continue
+				}
+				if k, isID := kv.Key.(*ast.Ident); isID && k.Name == fld.Name() {
+					inits = append(inits, kv.Value)
+				}
+			}
+			return true
+		})
+	}
+	if assigned || len(inits) != 1 {
+		return nil
+	}
+	return inits[0]
 }
 
 // shape: the last two selectors of each operand, e.g. `base.Height >= HardforkV2.RequireHeight`.
